@@ -1,6 +1,7 @@
 // appended to crates/air-lib/interpreter-sede/src/multiformat.rs
 // native job C27.roundtrip (bounded grid): decode_multiformat(encode_multiformat(v, codec), expected) with the real
-// unsigned_varint, for codec, expected over the varint length boundaries; also truncated input => Err(VarInt)
+// unsigned_varint, for codec, expected over the varint length boundaries and the codecs the interpreter really uses (0x0200 JSON,
+// 0x0201 MessagePack, their neighbour 0x0202): a tag other than the expected one is Err(Codec(tag)) whatever it is; truncated input => Err(VarInt)
 #[cfg(test)]
 mod verif_native_multiformat {
     use super::*;
@@ -19,7 +20,7 @@ mod verif_native_multiformat {
 
     #[test]
     fn multiformat_round_trip_on_boundaries() {
-        let grid: Vec<u32> = vec![0, 1, 126, 127, 128, 129, 16383, 16384, 16385, 2097151, 2097152, 268435455, 268435456, u32::MAX - 1, u32::MAX];
+        let grid: Vec<u32> = vec![0, 1, 126, 127, 128, 129, 0x0200, 0x0201, 0x0202, 16383, 16384, 16385, 2097151, 2097152, 268435455, 268435456, u32::MAX - 1, u32::MAX];
         let mut cases = 0u64;
         for &codec in &grid {
             for &expected in &grid {
